@@ -9,17 +9,20 @@ type merkleDamgardHasher struct {
 // Write implements hash.Write
 func (h *merkleDamgardHasher) Write(p []byte) (n int, err error) {
 	blockSize := h.f.BlockSize()
+	n = len(p) // io.Writer: 0 <= n <= len(p), also when the last block is padded
+	state := h.state
 	for len(p) != 0 {
 		if len(p) < blockSize {
 			p = append(make([]byte, blockSize-len(p), blockSize), p...)
 		}
-		if h.state, err = h.f.Compress(h.state, p[:blockSize]); err != nil {
-			return
+		// the state is replaced only once every block was accepted: a rejected write absorbs nothing
+		if state, err = h.f.Compress(state, p[:blockSize]); err != nil {
+			return 0, err
 		}
-		n += blockSize
 		p = p[blockSize:]
 	}
-	return
+	h.state = state
+	return n, nil
 }
 
 func (h *merkleDamgardHasher) Sum(b []byte) []byte {
